@@ -1035,4 +1035,72 @@ Section Pub.
       + intros v0 E. rewrite Hpc in E. discriminate.
       + intros _. exact I.
   Qed.
+
+  Lemma PInv_step g ls t c lc g' lc' es :
+    Inv0 P g ls -> PInv g ls -> nth_error ls t = Some lc -> tstep P t c g lc = Some (g', lc', es) ->
+    PInv g' (upd ls t lc').
+  Proof.
+    intros H0 HI Hl Hs. pose proof (tstep_shape _ _ _ _ _ _ _ _ Hs) as Sh. unfold step_shape in Sh.
+    destruct (at_ lc) eqn:Hpc.
+    - destruct Sh as (o & r & Hpr & Hd). eapply PInv_step_invoke; eauto.
+    - destruct Sh as (-> & -> & _). apply PInv_step_store; auto.
+    - destruct Sh as (-> & _ & ->). apply (PInv_step_load g ls t c lc l k); auto.
+    - destruct Sh as (-> & -> & _). apply PInv_step_wbeg; auto.
+    - destruct Sh as (-> & -> & _). apply PInv_step_wend; auto.
+    - destruct Sh as (-> & -> & _). apply PInv_step_rbeg; auto.
+    - destruct Sh as (-> & -> & _). apply PInv_step_rend; auto.
+  Qed.
+
+  Definition BInv (g : glob) (ls : list loc) : Prop := Inv0 P g ls /\ PInv g ls.
+
+  Lemma R_BInv progs s : wf_pub progs = true -> R P progs s -> BInv (gl s) (thr s).
+  Proof.
+    intros Hwf HR. eapply (reachable_inv glob loc (tstep P) BInv); [| |exact HR].
+    - intros g ls t c l g' l' es [A B] Hl Hs. split; [eapply Inv0_step; eauto|eapply PInv_step; eauto].
+    - split; [apply Inv0_init|apply PInv_init; exact Hwf].
+  Qed.
+
+  (* no data race on the published datum *)
+  Lemma publishes progs s : wf_pub progs = true -> R P progs s -> grace (gl s) D = false.
+  Proof. intros Hwf HR. apply (Q_race _ _ (proj2 (R_BInv _ _ Hwf HR))). Qed.
+
+  (* the happens-before fact behind it: a reader about to read D (it observed L tripped) has the
+     publisher's last write of D in its clock *)
+  Lemma publishes_hb progs s t : wf_pub progs = true -> R P progs s -> t <> p -> pcof (thr s) t = P_rbeg D ->
+    hs (gl s) L <> [] /\ (fwhen (cft (cells (gl s) D)) <= clk (gl s) t p)%nat /\
+    (fwhen (cft (cells (gl s) D)) = 0%nat \/ fwho (cft (cells (gl s) D)) = p).
+  Proof.
+    intros Hwf HR Ht Hpc. destruct (R_BInv _ _ Hwf HR) as [_ HI].
+    destruct (Q_obs _ _ HI t Ht Hpc) as [A B]. split; [exact A|]. split; [exact B|]. apply (Q_who _ _ HI).
+  Qed.
+
+  (* once the line is tripped the datum is complete (no write window open) and never changes again:
+     the value a reader gets is the value the publisher wrote last before tripping *)
+  Lemma publishes_stable progs s : wf_pub progs = true -> R P progs s -> hs (gl s) L <> [] ->
+    cdirty (cells (gl s) D) = false /\
+    forall t c lc g' lc' es, nth_error (thr s) t = Some lc -> tstep P t c (gl s) lc = Some (g', lc', es) ->
+      cval (cells g' D) = cval (cells (gl s) D).
+  Proof.
+    intros Hwf HR Hne. destruct (R_BInv _ _ Hwf HR) as [_ HI].
+    assert (Hnw : forall v, pcof (thr s) p <> P_wend D v).
+    { intros v E. destruct (Q_pre _ _ HI) as [Hnil _]; [|contradiction].
+      right. unfold pcof in E. rewrite E. cbn. apply Nat.eqb_refl. }
+    split.
+    - destruct (cdirty (cells (gl s) D)) eqn:E; [|reflexivity].
+      destruct (Q_dirty _ _ HI E) as [v Hv]. exfalso. eapply Hnw; eauto.
+    - intros t c lc g' lc' es Hl Hs.
+      pose proof (tstep_shape _ _ _ _ _ _ _ _ Hs) as Sh. unfold step_shape in Sh.
+      assert (Hpt : pcof (thr s) t = at_ lc) by (unfold pcof; rewrite (locof_at _ _ _ Hl); reflexivity).
+      destruct (at_ lc) eqn:Hpc.
+      + destruct Sh as (o & r & _ & Hd).
+        destruct (disp_same _ _ _ (dispatch_glob _ _ _ _ _ _ _ _ Hd)) as (_ & _ & -> & _). reflexivity.
+      + destruct Sh as (-> & _ & _). reflexivity.
+      + destruct Sh as (-> & _ & _). reflexivity.
+      + destruct Sh as (-> & _ & _). rewrite wbeg_cells. destruct (Nat.eqb_spec D d) as [->|]; reflexivity.
+      + destruct Sh as (-> & _ & _). rewrite wend_cells. destruct (Nat.eqb_spec D d) as [<-|]; [|reflexivity].
+        exfalso. destruct (Nat.eq_dec t p) as [->|Hnp]; [eapply Hnw; eauto|].
+        destruct (Q_rd _ _ HI t Hnp) as (_ & _ & Hk). rewrite Hpt in Hk. apply Hk. reflexivity.
+      + destruct Sh as (-> & _ & _). rewrite rbeg_cells. destruct (Nat.eqb_spec D d) as [->|]; reflexivity.
+      + destruct Sh as (-> & _ & _). rewrite rend_cells. destruct (Nat.eqb_spec D d) as [->|]; reflexivity.
+  Qed.
 End Pub.
